@@ -111,6 +111,17 @@ def track(x):
     return x
 
 
+_SHARED = {}
+
+
+def shared(name, factory):
+    """an argument object the caller created once and keeps using for later calls (per process): in a pristine process the
+    signature sees it fresh, in an interleaving earlier calls have already used it - the results must be the same"""
+    if name not in _SHARED:
+        _SHARED[name] = factory()
+    return _SHARED[name]
+
+
 def rbits(r, n):
     from bitarray import bitarray
     return track(bitarray([r.getrandbits(1) for _ in range(n)]))
@@ -515,6 +526,69 @@ def build():
 
     add("ars", tms_ars("motorola/test_ars.py", "okdmr.dmrlib.motorola.automatic_registration_service", "AutomaticRegistrationService"), 4)
     add("tms", tms_ars("motorola/test_tms.py", "okdmr.dmrlib.motorola.text_messaging_service", "TextMessagingService"), 4)
+
+    # ---------------------------------------------------------------- caller-owned argument objects reused across calls
+    def tms_reused_header(variant):
+        def f(r):
+            from okdmr.dmrlib.motorola import text_messaging_service as T
+            h = shared("tms_ack_header", lambda: T.FirstHeader(pdu_type=T.TMSPDUType.TMS_ACKNOWLEDGEMENT))
+            h2 = shared("tms_text_header", lambda: T.FirstHeader(is_acknowledged=True, pdu_type=T.TMSPDUType.SIMPLE_TEXT_MESSAGE))
+            if variant == 0:
+                return T.TextMessagingService(first_header=h, address=b"12", sequence_number=5).as_bytes(), []
+            if variant == 1:
+                return T.TextMessagingService(first_header=h, address=b"12").as_bytes(), []
+            if variant == 2:
+                return T.TextMessagingService(first_header=h2, address=b"", sequence_number=40, encoding=T.TMSEncoding.UCS2_LE,
+                                              message="ab".encode("utf-16-le")).as_bytes(), []
+            return T.TextMessagingService(first_header=h2, address=b"7", sequence_number=3, message="c".encode("utf-16-le")).as_bytes(), []
+        return f
+
+    for v in range(4):
+        add(f"tms_reused_header_{v}", tms_reused_header(v), 1, mutable=False)
+
+    def ars_reused_header(variant):
+        def f(r):
+            from okdmr.dmrlib.motorola import automatic_registration_service as A
+            h = shared("ars_header", lambda: A.FirstHeader(pdu_type=A.ARSPDUType.DEVICE_REGISTRATION_REQUEST))
+            if variant == 0:
+                return A.AutomaticRegistrationService(first_header=h, registration_request_header=A.RegistrationRequestHeader(event=list(A.RegistrationEvent)[0]),
+                                                      device_identifier="d", user_identifier="u", password="p").as_bytes(), []
+            return A.AutomaticRegistrationService(first_header=h, device_identifier="dev", user_identifier="", password="").as_bytes(), []
+        return f
+
+    for v in range(2):
+        add(f"ars_reused_header_{v}", ars_reused_header(v), 1, mutable=False)
+
+    def flc_reused_options(variant):
+        def f(r):
+            from okdmr.dmrlib.etsi.layer2.elements.feature_set_ids import FeatureSetIDs
+            from okdmr.dmrlib.etsi.layer2.elements.flcos import FLCOs
+            from okdmr.dmrlib.etsi.layer2.pdu.full_link_control import FullLinkControl
+            from okdmr.dmrlib.etsi.layer3.elements.service_options import ServiceOptions
+            so = shared("flc_service_options", lambda: ServiceOptions(is_emergency=1, priority_level=2))
+            if variant == 0:
+                o = FullLinkControl(flco=FLCOs.GroupVoiceChannelUser, fid=FeatureSetIDs.StandardizedFID, service_options=so, group_address=9, source_address=8)
+            else:
+                o = FullLinkControl(flco=FLCOs.UnitToUnitVoiceChannelUser, fid=FeatureSetIDs.StandardizedFID, service_options=so, target_address=7, source_address=6)
+            return (o.as_bits(), FullLinkControl.from_bits(o.as_bits()).as_bits()), []
+        return f
+
+    for v in range(2):
+        add(f"flc_reused_options_{v}", flc_reused_options(v), 1, mutable=False)
+
+    def hytera_reused_ip(variant):
+        def f(r):
+            from okdmr.dmrlib.hytera.pdu.hdap import HDAP
+            from okdmr.dmrlib.hytera.pdu.radio_ip import RadioIP
+            from okdmr.dmrlib.hytera.pdu.radio_registration_service import RadioRegistrationService, RRSTypes
+            ip = shared("hytera_radio_ip", lambda: RadioIP(2308090, subnet=10))
+            op = [RRSTypes.RadioRegistrationRequest, RRSTypes.RadioGoingOffline][variant]
+            o = RadioRegistrationService(opcode=op, radio_ip=ip, is_reliable=bool(variant))
+            return (o.as_bytes(), HDAP.from_bytes(o.as_bytes()).as_bytes()), []
+        return f
+
+    for v in range(2):
+        add(f"hytera_reused_ip_{v}", hytera_reused_ip(v), 1, mutable=False)
 
     # ---------------------------------------------------------------- utils
     def utils(r):
